@@ -417,6 +417,10 @@ class XGen:
         def lvls(fmts, pstyle=None):
             out = []
             for i, f in enumerate(fmts):
+                if f in ("decimal", "lowerLetter"):
+                    # every number format other than "bullet" is a numbered list, whatever the script or style
+                    f = r.choice(["decimal", "lowerLetter", "upperRoman", "ordinal", "russianLower", "hebrew1", "chineseCounting", "thaiNumbers",
+                                  "arabicAlpha", "none", "decimalZero"])
                 kids = [X("w:numFmt", {"w:val": f})] if f is not None else []
                 if pstyle and i == 0:
                     kids.append(X("w:pStyle", {"w:val": pstyle}))
